@@ -96,6 +96,7 @@ def es_worker(args):
         out['meta'] = dag.meta
         os.remove(dagp)
         # native replay of every relation that is not proved: at the trace witness and at the evaluation points
+        fd_cache = {}
         for r in rels:
             if r['proved']:
                 continue
@@ -111,9 +112,20 @@ def es_worker(args):
                 # central finite difference of the library's own value, per direction
                 x = pts[0]
                 ncomp = len(x) - 3
-                for sd in ['T', 'V'] + ['N%d' % i for i in range(ncomp)]:
-                    fj = {'job': 'fd', 'model': job['model'], 'seed': [sd], 'h': 1e-6}
-                    nat = native(fj, x)
+                comps = ['N%d' % i for i in range(ncomp)]
+                dirs = [([sd], 1e-6, 1e-5) for sd in ['T', 'V'] + comps]
+                # second order (hyper-dual part vs difference of the first-order dual part) and third order (Dual3 vs
+                # difference of the Dual2 part): a value re-injected through .re() followed by too few implicit-
+                # differentiation steps is right to first order and wrong beyond
+                dirs += [(p, 1e-5, 1e-6) for p in [['T', 'T'], ['V', 'V'], ['T', 'V'], ['V', 'T']] + [[c, c] for c in comps] + [['T', c] for c in comps[:1]] + [['V', c] for c in comps[:1]]
+                         + ([[comps[0], comps[1]]] if ncomp > 1 else [])]
+                dirs += [(p, 1e-4, 1e-5) for p in [['T', 'T', 'T'], ['V', 'V', 'V']]]
+                for sd, hstep, tol_fd in dirs:
+                    fj = {'job': 'fd', 'model': job['model'], 'seed': sd, 'h': hstep}
+                    ck = json.dumps([fj, x], sort_keys=True)
+                    if ck not in fd_cache:
+                        fd_cache[ck] = native(fj, x)     # one native run serves every contribution of the job
+                    nat = fd_cache[ck]
                     if nat is None:
                         continue
                     scale = max([abs(nr['b']) for nr in nat['rels'] if _fin(nr['b'])] + [1e-300])
@@ -124,11 +136,11 @@ def es_worker(args):
                         if not (_fin(a) and _fin(b)):
                             continue
                         dev = abs(a - b) / max(abs(a), abs(b), 1e-300)
-                        if abs(a - b) < 1e-7 * scale:
+                        if abs(a - b) < 1e-2 * tol_fd * scale:
                             dev = 0.0
-                        if dev > 1e-5 and (worst is None or dev > worst['dev']):
-                            worst = {'x': x, 'a': a, 'b': b, 'dev': dev, 'direction': sd,
-                                     'meaning': 'a = central finite difference of the contribution, b = derivative reported through dual numbers'}
+                        if dev > tol_fd and (worst is None or dev > worst['dev']):
+                            worst = {'x': x, 'a': a, 'b': b, 'dev': dev, 'direction': ''.join(sd),
+                                     'meaning': 'a = central finite difference of the next-lower-order dual part of the contribution, b = derivative reported through dual numbers'}
                 r['native_worst'] = worst
                 continue
             if job['job'] == 'virial':
@@ -201,7 +213,8 @@ def run_jobs(jobs, procs=16):
                 os.remove(path)
             pr = multiprocessing.Process(target=_job_main, args=(j, path))
             pr.start()
-            limit = j[2].get('hard_timeout_s', 3 * j[2].get('budget_s', 600) + 300)
+            # soft (thorough-only) jobs: tighter wall-clock limit and no retry
+            limit = j[2].get('hard_timeout_s', (1.5 * j[2].get('budget_s', 600) + 120) if j[2].get('soft') else (3 * j[2].get('budget_s', 600) + 300))
             running[i] = (pr, path, time.time(), limit, j)
         time.sleep(0.2)
         for i in list(running):
@@ -224,7 +237,7 @@ def run_jobs(jobs, procs=16):
                       [(x['name'], x['proved']) for x in r.get('rels', [])]), flush=True)
     res = [out[i] for i in range(len(jobs))]
     # one retry (different evaluation-point seed) for jobs that were killed at their wall-clock limit
-    redo = [i for i, r in enumerate(res) if r['status'] == 'timeout' and not jobs[i][2].get('_retried')]
+    redo = [i for i, r in enumerate(res) if r['status'] == 'timeout' and not jobs[i][2].get('_retried') and not jobs[i][2].get('soft')]
     if redo:
         again = []
         for i in redo:
@@ -260,6 +273,10 @@ def decide(outcome, prop, results, scope=None, tol0=1e-9):
     undischarged = []
     for res in results:
         if res['status'] != 'ok':
+            if res['opts'].get('soft'):
+                # thorough-only job that did not finish within the limits of this run: recorded, nothing claimed
+                per_job.append({'job': res['name'], 'status': '%s (thorough-only job, not claimed)' % res['status'], 'relations': {}})
+                continue
             outcome.inconclusive.append('%s: %s: %s' % (res['name'], res['status'], res.get('error', '')[-400:]))
             continue
         solver_s += res['stats'].get('solver_s', 0.0)
